@@ -869,6 +869,7 @@ class BackendZ3(Backend):
                 self._ast_cache[h] = (a, ast)
         return self._add(s, converted, track=track)
 
+    @condom
     def _unsat_core(self, s):
         cores = s.unsat_core()
         return [impl.children()[1] for impl in s.assertions() if impl.children()[0] in cores]
@@ -895,7 +896,10 @@ class BackendZ3(Backend):
 
         return model
 
+    @condom
     def _satisfiable(self, extra_constraints=(), solver=None, model_callback=None):
+        # (like _batch_eval and _min/_max: a Z3Exception out of the check - "reached max unfolding" - must reach the
+        # caller as a claripy error, and the call counts as a Z3 call in progress)
         self.solve_count += 1
 
         log.debug("Doing a check! (satisfiable)")
